@@ -17,6 +17,8 @@ import (
 	"context"
 	"errors"
 	"fmt"
+	"google.golang.org/grpc/codes"
+	"google.golang.org/grpc/status"
 	"io"
 	"net"
 	"os"
@@ -85,6 +87,9 @@ type RPCFault struct {
 	// Gate, when set, is called with the request before Err is returned (after Delay): it may
 	// block, e.g. until another node has finished answering the same query.
 	Gate func(ctx context.Context, req interface{})
+	// CutAfter > 0 (server-streaming methods): the answer stream breaks after that many messages have been sent -
+	// the caller receives them and then an Unavailable error, as when the connection is lost in the middle
+	CutAfter int
 }
 
 type RPCRecord struct {
@@ -764,6 +769,21 @@ type recStream struct {
 	first  bool
 	err    error
 	req    interface{}
+	sent   int
+}
+
+func (s *recStream) SendMsg(m interface{}) error {
+	short := s.method[strings.LastIndex(s.method, "/")+1:]
+	s.n.rpcMu.Lock()
+	f, ok := s.n.rpcFaults[short]
+	s.n.rpcMu.Unlock()
+	if ok && f.CutAfter > 0 {
+		if s.sent >= f.CutAfter {
+			return status.Error(codes.Unavailable, "sim: connection lost while the answer was streamed")
+		}
+		s.sent++
+	}
+	return s.ServerStream.SendMsg(m)
 }
 
 func (s *recStream) RecvMsg(m interface{}) error {
